@@ -94,7 +94,7 @@ def build(features=()):
     gtext = u.fn_text(cr, gpath, Fn(gpath))
     ins = [entry('let ghost t0 = self.t@; let ghost c0 = self.counter1024 as nat; let ghost mut tp: Seq<u32> = self.t@; let ghost mut rp: Seq<u32> = results@;\n'
                  'proof { lemma_inv0(t0, c0, results@); }'),
-           before(lit('if self.counter1024 & 512 == 0'), idx_facts)]
+           before(r'if self\.counter1024 & \d+ == 0', idx_facts)]
     for kind in ('p', 'q'):
         calls = step_calls(gtext, kind)
         if len(calls) != 16:
@@ -105,13 +105,13 @@ def build(features=()):
             ins.append(before(pat, 'proof { tp = self.t@; rp = results@; }'))
             ins.append(after(pat, 'proof { lemma_adv_%s(t0, c0, %d, tp, rp, self.t@, results@, cc as int, %s); }' % (
                 kind, k, ', '.join('(%s) as int' % a for a in args))))
-    ins.append(before(lit('self.counter1024 = self.counter1024.wrapping_add(16);'), 'proof { lemma_inv_end(t0, c0, self.t@, results@); }'))
+    ins.append(before(r'self\.counter1024 = self\.counter1024[^;]*;\s*$', 'proof { lemma_inv_end(t0, c0, self.t@, results@); }'))
     gen = Fn(None, builtin_props='C14 C18',
              sig_rewrites=[(r'results: &mut Self::Results', 'results: &mut [u32; 16]')],
              ensures=[C('hc128.generate.counter', 'C02 C14', 'final(self).counter1024 == old(self).counter1024.wrapping_add(16) && final(self).counter1024 % 16 == 0'),
                       C('hc128.generate.table', 'C02', 'final(self).t@ == hc_steps(old(self).t@, old(self).counter1024 as nat, 16).0'),
                       C('hc128.generate.words', 'C02', 'forall |k: int| 0 <= k < 16 ==> final(results)@[k] == hc_steps(old(self).t@, old(self).counter1024 as nat, 16).1[k]')],
-             inserts=ins + [before(lit('self.counter1024 = self.counter1024.wrapping_add(16);'),
+             inserts=ins + [before(r'self\.counter1024 = self\.counter1024[^;]*;\s*$',
                                    'proof { let c = self.counter1024; assert(usize::MAX == 0xffff_ffff || usize::MAX == 0xffff_ffff_ffff_ffff) by { assert(usize::BITS == 32 || usize::BITS == 64); }; assert(c.wrapping_add(16) % 16 == 0); }')])
     u.impl(cr, 'hc128::BlockRngCore@Hc128Core', header='impl BlockRngCore for Hc128Core', keep=['type Item', 'type Results'],
            extra='    open spec fn core_inv(&self) -> bool { self.counter1024 % 16 == 0 }',
@@ -153,7 +153,7 @@ def build(features=()):
                     inserts=[before(r'for i in 16\.\.256 \+ 16', 'proof { assert(forall |k: int| 0 <= k < 16 ==> #[trigger] t@[k] == w_at(seed@, k as nat)); }'),
                              Insert('afterloop', 0, ';'),
                              before(r'for i in 16\.\.1024', 'proof { assert(forall |k: int| 0 <= k < 16 ==> #[trigger] t@[k] == w_at(seed@, (256 + k) as nat)); }'),
-                             before(r'for _ in 0\.\.64', 'proof { assert(core.t@ =~= expand(seed@)); lemma_iunfold(expand(seed@), 0, 0); }'),
+                             before(r'for _ in 0\.\.\d+', 'proof { assert(core.t@ =~= expand(seed@)); lemma_iunfold(expand(seed@), 0, 0); }'),
                              after(lit('core.sixteen_steps()'), ';\nproof { lemma_isplit(expand(seed@), (16 * itn.index@) as nat, 16); }')])
     u.impl(cr, 'hc128::impl@Hc128Core', header='impl Hc128Core', fns=['step_p', 'step_q', 'sixteen_steps', 'init'], contracts=cs)
 
